@@ -8,7 +8,7 @@ After a push that applied all of its range `r₁` and recorded it, `plan` (the f
 next range `r₂` right behind `r₁`; a single push with the goal "`|r₁| + |r₂|` patches" chooses `r₁ ++ r₂`.
 
 Needs: the old `.pc/applied-patches` (if any) parses and ends with a newline.  That the names of `r₁` read back as
-themselves (`Series.PlainName`: non-empty, no whitespace, valid UTF-8 — a leading `#` is fine since
+themselves (`Series.PlainName`: non-empty, no Unicode white-space character, valid UTF-8 — a leading `#` is fine since
 `.pc/applied-patches` is read without the comment rule, repair of `hash-named-patch`) need not be assumed: `r₁` comes
 out of `readSeries`, and every name `readSeries` returns is plain (`Series.readSeries_names_plain`).
 -/
